@@ -500,7 +500,12 @@ func TestOptionSequences(t *testing.T) {
 
 type InvalidCase struct {
 	What string `json:"what"`
+	// Setup: what the router the invalid value is offered to already carries: "" nothing, "global-mw" a middleware for all
+	// handlers, "route-scope-mw" a middleware scoped to route handlers, "default-options" fox.DefaultOptions()
+	Setup string `json:"setup,omitempty"`
 }
+
+var invalidSetups = []string{"", "global-mw", "route-scope-mw", "default-options"}
 
 type sliceKey []int
 type holder struct{ V any }
@@ -521,7 +526,8 @@ var invalidKeys = map[string]any{
 }
 
 var invalidNames = func() []string {
-	out := []string{"nil route handler (Handle)", "nil route handler (Update)", "nil no-route handler", "nil no-method handler", "nil options handler",
+	out := []string{"nil route handler (Handle)", "nil route handler (Update)", "nil route handler (Handle, with route middleware)", "nil route handler (Update, with route middleware)",
+		"nil route handler (Txn.Handle)", "nil route handler (Txn.Update)", "nil no-route handler", "nil no-method handler", "nil options handler",
 		"nil global middleware", "nil global middleware among valid ones", "nil scoped middleware", "nil route middleware", "nil route", "nil route (UpdateRoute)"}
 	for k := range invalidKeys {
 		out = append(out, k)
@@ -571,10 +577,23 @@ func checkInvalid(c *InvalidCase) (err error) {
 		_, e := fox.New(fox.WithMiddlewareFor(fox.NoRouteHandler, nil))
 		return expectCfg(e)
 	}
-	f, e := fox.New()
+	var setup []fox.GlobalOption
+	switch c.Setup {
+	case "global-mw":
+		setup = append(setup, fox.WithMiddleware(mw))
+	case "route-scope-mw":
+		setup = append(setup, fox.WithMiddlewareFor(fox.RouteHandler, mw))
+	case "default-options":
+		setup = append(setup, fox.DefaultOptions())
+	}
+	f, e := fox.New(setup...)
 	if e != nil {
 		return e
 	}
+	if c.Setup != "" {
+		c = &InvalidCase{What: c.What + " on a router with " + c.Setup, Setup: c.Setup}
+	}
+	what := strings.TrimSuffix(c.What, " on a router with "+c.Setup)
 	f.MustHandle("GET", "/existing", h)
 	unchanged := func() error {
 		if f.Len() != 1 || !f.Has("GET", "/existing") || f.Has("GET", "/new/{a}") {
@@ -587,11 +606,19 @@ func checkInvalid(c *InvalidCase) (err error) {
 		}
 		return nil
 	}
-	switch c.What {
+	switch what {
 	case "nil route handler (Handle)":
 		_, e = f.Handle("GET", "/new/{a}", nil)
 	case "nil route handler (Update)":
 		_, e = f.Update("GET", "/existing", nil)
+	case "nil route handler (Handle, with route middleware)":
+		_, e = f.Handle("GET", "/new/{a}", nil, fox.WithMiddleware(mw))
+	case "nil route handler (Update, with route middleware)":
+		_, e = f.Update("GET", "/existing", nil, fox.WithMiddleware(mw))
+	case "nil route handler (Txn.Handle)":
+		_ = f.Updates(func(txn *fox.Txn) error { _, e = txn.Handle("GET", "/new/{a}", nil, fox.WithMiddleware(mw)); return e })
+	case "nil route handler (Txn.Update)":
+		_ = f.Updates(func(txn *fox.Txn) error { _, e = txn.Update("GET", "/existing", nil, fox.WithMiddleware(mw)); return e })
 	case "nil route middleware":
 		_, e = f.Handle("GET", "/new/{a}", h, fox.WithMiddleware(mw, nil))
 	case "nil route":
@@ -599,12 +626,12 @@ func checkInvalid(c *InvalidCase) (err error) {
 	case "nil route (UpdateRoute)":
 		e = f.UpdateRoute("GET", nil)
 	default:
-		key, ok := invalidKeys[c.What]
+		key, ok := invalidKeys[what]
 		if !ok {
 			return fmt.Errorf("unknown invalid case %q", c.What)
 		}
 		_, e = f.Handle("GET", "/new/{a}", h, fox.WithAnnotation(key, 1))
-		if strings.Contains(c.What, "(valid)") {
+		if strings.Contains(what, "(valid)") {
 			if e != nil {
 				return fmt.Errorf("%s: rejected: %v", c.What, e)
 			}
@@ -712,13 +739,15 @@ func TestAccessorsManyWildcards(t *testing.T) {
 
 func TestInvalidOptions(t *testing.T) {
 	for _, name := range invalidNames {
-		c := &InvalidCase{What: name}
-		stats.Eval()
-		stats.NonTrivial("invalid|" + name)
-		stats.Class("ill-typed-or-nil-value")
-		if err := checkInvalid(c); err != nil {
-			stats.Fail("invalid-option", c, "%v", err)
-			t.Errorf("%v", err)
+		for _, setup := range invalidSetups {
+			c := &InvalidCase{What: name, Setup: setup}
+			stats.Eval()
+			stats.NonTrivial("invalid|" + name + "|" + setup)
+			stats.Class("ill-typed-or-nil-value")
+			if err := checkInvalid(c); err != nil {
+				stats.Fail("invalid-option", c, "%v", err)
+				t.Errorf("%v", err)
+			}
 		}
 	}
 	stats.Sample(InvalidCase{What: invalidNames[0]})
